@@ -2,3 +2,4 @@ import TxV.Util.AuditCmd
 import TxV.Props.C07
 import TxV.Props.C07b
 #txv_audit TxV.Props.C07
+#txv_audit TxV.Props.C07b
